@@ -1,10 +1,10 @@
 (* SortOrderDispatch.v - wire decoding for the "sortorder" cluster (C08-C10).
    pv    := () | (0 z) | (1 str)                        None / int / str
    loc   := (0 pv pv pv) | (1 ((name pv) ...))          plain Locatable / MafRecord columns
-   C08:  (0 cls contigs (loc ...))       cls 0 Coordinate, 1 BarcodesAndCoordinate
+   C08:  (0 cls contigs (loc ...) name)  cls 0 Coordinate, 1 BarcodesAndCoordinate; name: SortOrder.find(name)
          contigs := () | ((pv ...))      contigs=None / contigs=[...]
-         reply ((info ...) (pairs ...)) : per record the accessor echo and the
-         key outcome; per ordered pair the seven comparison results
+         reply ((info ...) (pairs ...) find) : per record the accessor echo, the key
+         outcome and str(key); per ordered pair the seven comparison results
    C09:  (1 (headerline ...) (loc ...))  reply (echo (n-yielded outcome))
    C10:  (2 hdr assume_sorted (wrec ...))
          hdr := (0 (headerline ...) scheme) | (1 (textline ...) cls so_contigs contigs scheme)
@@ -66,15 +66,23 @@ Definition enc_pair (a b : res skey) : sexp :=
   | _, _ => L []
   end.
 
-Definition run_c08 (cls : Z) (contigs : option (list pv)) (ls : list locatable) : sexp :=
+Definition enc_find (name : str) : sexp :=
+  match so_find name with
+  | Ok c => L [A 0; s_of_str (so_name c)]
+  | Raise e => L [A 1; s_of_exn e]
+  end.
+
+Definition run_c08 (cls : Z) (contigs : option (list pv)) (ls : list locatable) (fname : str) : sexp :=
   let so := so_make (dec_cls cls) contigs in
   match sort_key so with
   | Raise e => L [s_of_exn e]
   | Ok kf =>
       let keys := map (build_key kf) ls in
-      L [ L (map (fun lk => L [enc_echo (fst lk); enc_unit (bind (snd lk) (fun _ => Ok tt))])
+      L [ L (map (fun lk => L [enc_echo (fst lk); enc_unit (bind (snd lk) (fun _ => Ok tt));
+                                  match snd lk with Ok k => enc_res s_of_str (key_str k) | Raise _ => L [] end])
                  (combine ls keys));
-          L (map (fun a => L (map (fun b => enc_pair a b) keys)) keys) ]
+          L (map (fun a => L (map (fun b => enc_pair a b) keys)) keys);
+          enc_find fname ]
   end.
 
 (* ---------- C09 ---------- *)
@@ -140,10 +148,10 @@ Definition run_c10 (h : wheader) (assume_sorted : bool) (rs : list wrec) : sexp 
 
 Definition dispatch (s : sexp) : sexp :=
   match s with
-  | L [A 0; A cls; contigs; locs] =>
-      match as_opt (as_listof dec_pv) contigs, as_listof dec_loc locs with
-      | Some c, Some ls => run_c08 cls c ls
-      | _, _ => s_bad
+  | L [A 0; A cls; contigs; locs; fname] =>
+      match as_opt (as_listof dec_pv) contigs, as_listof dec_loc locs, as_str fname with
+      | Some c, Some ls, Some fn => run_c08 cls c ls fn
+      | _, _, _ => s_bad
       end
   | L [A 1; lines; locs] =>
       match as_listof as_str lines, as_listof dec_loc locs with
